@@ -152,6 +152,9 @@ func (e EvmEngine) resolver(r *Run, addrs []common.Address) Resolver {
 				return addrs[idx].Hex()
 			}
 			return common.Address{}.Hex()
+		case strings.HasPrefix(name, "valacc"): // the operator's own account: it always holds the self-delegation
+			fmt.Sscan(name[6:], &idx)
+			return w.Key("val", idx%len(w.Vals)).Hex().Hex()
 		case strings.HasPrefix(name, "valop"):
 			fmt.Sscan(name[5:], &idx)
 			return w.Key("val", idx%len(w.Vals)).Val().String()
